@@ -15,8 +15,10 @@
    does then:
      Pinned    `fmt.Printf(err); return`  - nobody reads the channel any more;
      Repaired  keep reading the channel (and discard) until it is closed.
-   A sink that only writes at the end (3MF, DXF, SVG, ToTriangles) is `fail = None`:
-   its finalisation may fail, but that path returns in both protocols.
+   A sink that only writes at the end (3MF, DXF, SVG, ToTriangles) is `fail = None`.
+   The finalisation (seek + header rewrite, encode, save) may fail as well
+   (`fin_ok = false`): the writer prints the error and returns, the deferred wg.Done()
+   runs, nothing is stored as the count.
 
    The worker pool of render/march3.go (evalRoutines) is `pool` below. *)
 From Coq Require Import List Arith Lia Bool NArith.
@@ -48,6 +50,9 @@ Section Pipeline.
 
   Variable P : proto.
   Variable fail : option nat.
+  Variable fin_ok : bool.      (* the finalisation after the last batch succeeds *)
+
+  Definition final_hdr (o : list A) : option nat := if fin_ok then Some (length o) else None.
 
   Definition init (batches : list (list A)) : st := mkst batches false Receiving [] None false.
 
@@ -74,7 +79,7 @@ Section Pipeline.
         else [mkst (todo s) (closed s) (Writing l) (out s ++ [x]) (hdr s) (main_done s)]
     | Writing [] => [set_con s Receiving]
     | Receiving =>
-        if closed s then [mkst (todo s) true Done (out s) (Some (length (out s))) (main_done s)] else []
+        if closed s then [mkst (todo s) true Done (out s) (final_hdr (out s)) (main_done s)] else []
     | Draining => if closed s then [set_con s Done] else []
     | Returned | Done => []
     end.
@@ -168,7 +173,7 @@ Section Pipeline.
     | Draining => P = Repaired /\ failed_at s
     | Returned => P = Pinned /\ failed_at s
     | Done => closed s = true /\
-              ((hdr s = Some (length (out s)) /\ out s = all /\ below s) \/ failed_at s)
+              ((hdr s = final_hdr (out s) /\ out s = all /\ below s) \/ failed_at s)
     end.
 
   Lemma Inv_init : Inv (init all_batches).
@@ -272,7 +277,7 @@ Section Pipeline.
   Qed.
 
   (* what a finished call has produced *)
-  Definition complete (s : st) : Prop := out s = all /\ hdr s = Some (length all).
+  Definition complete (s : st) : Prop := out s = all /\ hdr s = final_hdr all.
   Definition truncated (s : st) : Prop :=
     exists f, fail = Some f /\ f < length all /\ out s = firstn f all /\ hdr s = None.
 
@@ -328,11 +333,11 @@ Section Calls.
   Variable A : Type.
 
   (* Repaired protocol: every execution is finite and can only stop with the call returned *)
-  Theorem repaired_always_returns (batches : list (list A)) (fail : option nat) :
-    (forall s n s', reachable Repaired fail (init batches) s -> path Repaired fail s n s' -> n <= measure s) /\
-    (forall s, reachable Repaired fail (init batches) s -> stuck Repaired fail s ->
+  Theorem repaired_always_returns (batches : list (list A)) (fail : option nat) (fin_ok : bool) :
+    (forall s n s', reachable Repaired fail fin_ok (init batches) s -> path Repaired fail fin_ok s n s' -> n <= measure s) /\
+    (forall s, reachable Repaired fail fin_ok (init batches) s -> stuck Repaired fail fin_ok s ->
                main_done s = true /\ con s = Done /\ todo s = [] /\
-               ((complete batches s /\ (forall f, fail = Some f -> length (concat batches) <= f))
+               ((complete fin_ok batches s /\ (forall f, fail = Some f -> length (concat batches) <= f))
                 \/ truncated fail batches s)).
   Proof.
     split.
@@ -360,9 +365,9 @@ Section Calls.
 
   (* no failure: whatever the interleaving, a finished consumer has written exactly
      the batches, in order, and the count equals their number *)
-  Theorem consumer_all_interleavings (P : proto) (batches : list (list A)) s :
-    reachable P None (init batches) s -> con s = Done ->
-    out s = concat batches /\ hdr s = Some (length (concat batches)).
+  Theorem consumer_all_interleavings (P : proto) (fin_ok : bool) (batches : list (list A)) s :
+    reachable P None fin_ok (init batches) s -> con s = Done ->
+    out s = concat batches /\ hdr s = if fin_ok then Some (length (concat batches)) else None.
   Proof.
     intros Hr E. pose proof (Inv_reachable Hr) as (_ & _ & Hc). rewrite E in Hc.
     destruct Hc as [_ [(Hh & Ho & _)|(_ & Hf & _)]]; [|discriminate].
@@ -370,20 +375,22 @@ Section Calls.
   Qed.
 
   (* the scheduler used by the cases files yields a maximal execution *)
-  Theorem final_is_maximal (P : proto) (fail : option nat) (batches : list (list A)) :
-    reachable P fail (init batches) (final P fail batches) /\ stuck P fail (final P fail batches).
+  Theorem final_is_maximal (P : proto) (fail : option nat) (fin_ok : bool) (batches : list (list A)) :
+    reachable P fail fin_ok (init batches) (final P fail fin_ok batches) /\ stuck P fail fin_ok (final P fail fin_ok batches).
   Proof.
     unfold final. split; [apply exec_reachable, reach_refl | apply exec_stuck; lia].
   Qed.
 
   (* Pinned protocol: a failure anywhere before the last batch leaves the producer
      blocked on its send with nobody left to receive, and main never returns *)
+  Variable fk : bool.     (* whether the finalisation would succeed plays no role *)
+
   Definition deadlocked (P : proto) (fail : option nat) (s : st A) : Prop :=
-    stuck P fail s /\ main_done s = false /\ todo s <> [] /\ con s = Returned.
+    stuck P fail fk s /\ main_done s = false /\ todo s <> [] /\ con s = Returned.
 
   Lemma pinned_writes_until_failure (todo0 : list (list A)) l o f :
     f = length o + length l ->
-    forall x l', reachable Pinned (Some f) (mkst todo0 false (Writing (l ++ x :: l')) o None false)
+    forall x l', reachable Pinned (Some f) fk (mkst todo0 false (Writing (l ++ x :: l')) o None false)
                    (mkst todo0 false Returned (o ++ l) None false).
   Proof.
     revert o. induction l as [|y l IH]; intros o Hf x l'.
@@ -391,7 +398,7 @@ Section Calls.
       unfold step, next, next_chan, next_cons. cbn.
       destruct todo0; cbn; unfold fails_now; cbn; replace (f =? length o) with true by (symmetry; apply Nat.eqb_eq; lia);
         cbn; now left.
-    - cbn [app]. assert (Hs : step Pinned (Some f) (mkst todo0 false (Writing (y :: l ++ x :: l')) o None false)
+    - cbn [app]. assert (Hs : step Pinned (Some f) fk (mkst todo0 false (Writing (y :: l ++ x :: l')) o None false)
                                   (mkst todo0 false (Writing (l ++ x :: l')) (o ++ [y]) None false)).
       { unfold step, next, next_chan, next_cons. cbn. cbn in Hf.
         destruct todo0; cbn; unfold fails_now; cbn; replace (f =? length o) with false by (symmetry; apply Nat.eqb_neq; lia);
@@ -404,12 +411,12 @@ Section Calls.
       + eapply reach_step; [exact IH' | exact Hs'].
   Qed.
 
-  Lemma reachable_trans P fail (a b c : st A) : reachable P fail a b -> reachable P fail b c -> reachable P fail a c.
+  Lemma reachable_trans P fail (a b c : st A) : reachable P fail fk a b -> reachable P fail fk b c -> reachable P fail fk a c.
   Proof. intros Hab Hbc. induction Hbc as [|s s' _ IH Hs]; [assumption | eapply reach_step; eassumption]. Qed.
 
   Lemma pinned_writes_whole_batch (todo0 : list (list A)) b o f :
     length o + length b <= f ->
-    reachable Pinned (Some f) (mkst todo0 false (Writing b) o None false)
+    reachable Pinned (Some f) fk (mkst todo0 false (Writing b) o None false)
               (mkst todo0 false Receiving (o ++ b) None false).
   Proof.
     revert o. induction b as [|y b IH]; intros o Hf.
@@ -425,11 +432,11 @@ Section Calls.
 
   Theorem pinned_hang (pre : list (list A)) (b : list A) (post : list (list A)) (f : nat) :
     post <> [] -> length (concat pre) <= f < length (concat pre) + length b ->
-    exists s, reachable Pinned (Some f) (init (pre ++ b :: post)) s /\ deadlocked Pinned (Some f) s.
+    exists s, reachable Pinned (Some f) fk (init (pre ++ b :: post)) s /\ deadlocked Pinned (Some f) s.
   Proof.
     intros Hpost Hf.
     assert (G : forall o, length o + length (concat pre) <= f < length o + length (concat pre) + length b ->
-                exists s, reachable Pinned (Some f) (mkst (pre ++ b :: post) false Receiving o None false) s
+                exists s, reachable Pinned (Some f) fk (mkst (pre ++ b :: post) false Receiving o None false) s
                           /\ deadlocked Pinned (Some f) s).
     { clear Hf. induction pre as [|p pre IH]; intros o Hf; cbn in *.
       - (* the failing batch is received, written up to item f, then the consumer returns *)
@@ -522,7 +529,7 @@ Definition batches_of (threshold : nat) (w : list (nat * nat)) : list (list unit
 
 Definition predicted (P : proto) (batches : list (list unit)) (fail : option nat) (create_ok : bool) : bool * option nat :=
   match start create_ok batches with
-  | Running _ => let s := final P fail batches in (main_done s, hdr s)
+  | Running _ => let s := final P fail true batches in (main_done s, hdr s)
   | c => (call_returned c, None)
   end.
 
